@@ -146,6 +146,11 @@ def replay_step(res, family, kinds=None, modes="base", profile="release", backen
         args += ["--force-backend", str(backend)]
     if big:
         args += ["--big"]
+    if "giant" in modes:
+        # a call that reads on through the gigabytes behind the head returns after seconds, not
+        # microseconds; the replayer reports that itself (and stops the mode) - the watchdog must
+        # not kill the process first
+        args += ["--hang-secs", "180"]
     hdir = os.path.join(WORK, "run", "%s-%s" % (res.prop, res.tier), "hashes")
     os.makedirs(hdir, exist_ok=True)
     res.hash_files = getattr(res, "hash_files", [])
